@@ -13,9 +13,22 @@ func (g *Gen) StreamProgram() *Program {
 	g.scopes = nil
 	g.push(false)
 	body := &Chunk{}
+	// empty and small containers for indexing inside and outside compounds
+	decl := func(name string, e Expr) {
+		body.Pipes = append(body.Pipes, stmt(&VarForm{LHS: []*LV{{Name: name}}, HasEq: true, RHS: []Expr{e}}))
+	}
+	decl("el", &ListLit{})
+	decl("es", &Str{S: "", Quote: 1})
+	decl("em", &MapLit{})
+	decl("sl", &ListLit{Items: []Expr{&Str{S: "k"}}})
+	decl("ss", &Str{S: "q"})
+	decl("sm", &MapLit{Pairs: []Pair{{K: &Str{S: "k"}, V: &Str{S: "zz"}}}})
 	n := 6 + g.r.Intn(8)
 	for i := 0; i < n; i++ {
 		pl := g.streamCall()
+		if g.chance(25) {
+			pl = g.indexEdge()
+		}
 		x := g.fresh("x")
 		body.Pipes = append(body.Pipes, stmt(&Try{Body: &Lambda{Rest: -1, Body: &Chunk{Pipes: []*Pipeline{pl}}}, CatchVar: &LV{Name: x},
 			Catch: &Lambda{Rest: -1, Body: &Chunk{Pipes: []*Pipeline{stmt(call("put", &Var{Name: x}))}}}}))
